@@ -84,6 +84,14 @@ def main():
         meta["confirmed"] = bool(ok and (not a.tests or meta["existing_tests"]["exit"] == 0))
         d = ROOT / "seeded" / a.id
         d.mkdir(parents=True, exist_ok=True)
+        meta["verif_commit"] = sh(f"git -C {ROOT} rev-parse --short HEAD")[1].strip()
+        old = d / "meta.json"
+        if old.exists():   # keep the earlier verdicts: a change first missed and caught after strengthening shows both
+            o = json.loads(old.read_text())
+            meta["earlier_runs"] = o.get("earlier_runs", []) + [dict(
+                verif_commit=o.get("verif_commit", "?"), caught_by=o.get("caught_by", []),
+                checks={k: dict(exit=v["exit"], clauses=v["clauses"]) for k, v in o.get("checks", {}).items()},
+                note=o.get("note", ""))]
         shutil.copy(a.patch, d / "patch.diff")
         shutil.copy(a.demo, d / "demo.py")
         (d / "meta.json").write_text(json.dumps(meta, indent=1) + "\n")
